@@ -93,11 +93,11 @@ type c12Signed struct {
 	// Odd: the "signatures" member contains something that is not signer -> key ID -> unpadded
 	// base64 string. The library refuses such messages wholesale, which the statement neither
 	// demands nor forbids, so completeness is not judged for them (soundness still is).
-	Odd  bool
+	Odd bool
 	// OddHard: the "signatures" member itself is not an object (nothing can be read from it)
 	OddHard bool
-	Sigs map[string]map[string][]byte // signer -> key ID -> decoded signature (well-formed entries)
-	IDs  map[string][]string          // signer -> every key ID named, in source order
+	Sigs    map[string]map[string][]byte // signer -> key ID -> decoded signature (well-formed entries)
+	IDs     map[string][]string          // signer -> every key ID named, in source order
 }
 
 func c12Analyse(msg []byte) c12Signed {
